@@ -579,6 +579,43 @@ def r16_6(F, R):
         R.violation("R16.6", "Values::update/pop", "on the empty-stack arm of `tail.pop()` the tracked values are written before returning", fn.loc(fn.blocks[bad[-1]]["t"]))
     else:
         R.ok("R16.6", "Values::update/pop", "None arm returns without touching self.top", loc, how="path")
+    # the converse (R16.10): on the Some arm the popped frame replaces self.top on *every* path — the frame holds h, v, w, x, y, z and the
+    # character positions; restoring it only when some of them differ leaves the others at the inner group's values
+    R.rule("R16.10", "a pop restores the whole frame: on the non-empty arm of `tail.pop()` in Values::update every path to the return assigns "
+                     "`self.top` (the popped h, v, w, x, y, z and character positions); a restore that is skipped when a partial comparison finds "
+                     "no difference leaves w/x/y/z at the inner group's values and VarRemover rewrites the next w/x/y/z move with the wrong distance")
+    some_targets = []
+    for b2i, b2 in enumerate(fn.blocks):
+        t2 = b2["t"]
+        if t2["k"] != "switch":
+            continue
+        p = op_place(t2["op"])
+        d = defs.single(p["l"]) if p is not None and not p["p"] else None
+        if d and d[0] == "st" and d[3]["k"] == "=" and d[3]["rv"]["k"] == "discr" and d[3]["rv"]["pl"]["l"] == res and not d[3]["rv"]["pl"]["p"]:
+            m = dict(t2["ts"])
+            some_targets.append(m.get(1, t2["else"]))
+    if not some_targets:
+        raise AnchorError("R16.10: Some arm of tail.pop() not found")
+
+    def stores_top_whole(b):
+        for st in fn.blocks[b]["s"]:
+            fp = field_path(st["lhs"]) if st["k"] == "=" else None
+            if fp and fp[-1] == "top":
+                return True
+        tb = fn.blocks[b]["t"]
+        if tb["k"] == "call" and strip_generics(callee_name(tb) or "") in ("core::mem::replace", "core::mem::swap") and tb.get("args"):
+            for a in tb["args"][:2]:
+                rp = defs.resolve_place(a)
+                fp = field_path(rp) if rp is not None else None
+                if fp and fp[-1] == "top":
+                    return True      # `let old = mem::replace(&mut self.top, popped)`
+        return False
+    skip = find_path(fn, some_targets, lambda b: is_return(fn, b), blocked={b for b in range(len(fn.blocks)) if stores_top_whole(b)})
+    if skip:
+        R.violation("R16.10", "Values::update/pop-restores", "on the non-empty arm of `tail.pop()` a path reaches the return without assigning self.top (%s): "
+                    "part of the popped frame is dropped" % " -> ".join(fn.loc(fn.blocks[b]["t"]).split("/")[-1] for b in skip[:5]), fn.loc(fn.blocks[skip[0]]["t"]))
+    else:
+        R.ok("R16.10", "Values::update/pop-restores", "self.top assigned on every path of the Some arm", loc, how="path")
 
 
 def r16_7(F, R):
